@@ -458,11 +458,11 @@ func (i *interpreter) runPath(entry *ssa.Function, args []int, item WorkItem) (p
 				i.recordViolation("uncaught-panic", "panic: "+toString(x.v))
 				status = "violation"
 			case engineBug:
-				status = fmt.Sprintf("inconclusive: engine bug in %s: %v | %s", x.where, x.p, firstLines(x.stack, 12))
+				status = fmt.Sprintf("inconclusive: engine bug in %s: %v | %s", x.where, x.p, firstLines(x.stack, 4))
 			default:
 				buf := make([]byte, 1<<13)
 				n := runtime.Stack(buf, false)
-				status = fmt.Sprintf("inconclusive: engine panic: %v | %s", r, firstLines(string(buf[:n]), 14))
+				status = fmt.Sprintf("inconclusive: engine panic: %v | %s", r, firstLines(string(buf[:n]), 5))
 			}
 		}()
 		var av []value
